@@ -228,13 +228,14 @@ class Ctx:
             if m is None or st is None or int(m["done"]) != n:
                 raise CheckError("trace validation of %s by %s did not consume the whole trace (%s of %d):\n%s"
                                  % (path, trace_module, m and m.get("done"), n, tail(out)))
-            return path, n, [int(x) for x in m["bad"]], st, set(int(x) for x in m.get("alt", m["bad"]))
+            return path, n, [int(x) for x in m["bad"]], st, set(int(x) for x in m.get("alt", m["bad"])), int(m.get("exact", -1))
 
         t = time.time()
         with ThreadPoolExecutor(max_workers=par) as ex:
             results = list(ex.map(one, shards))
         nev = nbad = 0
-        for path, n, bad, st, altset in results:
+        nexact = sum(r[5] for r in results if r[5] >= 0) if any(r[5] >= 0 for r in results) else None
+        for path, n, bad, st, altset, _ in results:
             self.states += st[1]
             self.transitions += st[0]
             nev += n
@@ -255,8 +256,14 @@ class Ctx:
                             self.samples.append({"stage": stage, "event": json.loads(line)})
         self.events += nev
         self.accepted += nev - nbad
-        self.stage_info.append({"stage": stage, "trace_spec": trace_module, "events": nev, "rejected": nbad,
-                                "shards": len(shards), "wall_s": round(time.time() - t, 1)})
+        info = {"stage": stage, "trace_spec": trace_module, "events": nev, "rejected": nbad,
+                "shards": len(shards), "wall_s": round(time.time() - t, 1)}
+        if nexact is not None:
+            # trace specs that judge only part of the events (the others belong to another plan) report how many
+            info["judged_exactly"] = nexact
+            if nexact == 0:
+                raise CheckError("stage %s: no event was in the class this trace spec judges (vacuous)" % stage)
+        self.stage_info.append(info)
         return nbad
 
 
